@@ -260,8 +260,11 @@ def _is_normal_reduce_expr(expr: IndexLambda) -> bool:
                 return False
 
     # every axis of the result must come from an axis of the operand (an
-    # index lambda may have further axes that its expression does not use)
-    return i_out_dim == len(expr.shape)
+    # index lambda may have further axes that its expression does not use),
+    # and every reduction variable must index the operand (one that does not
+    # multiplies the result by its trip count)
+    return (i_out_dim == len(expr.shape)
+            and seen_redn_indices == set(expr.expr.bounds))
 
 
 _SIMPLE_PYMBOLIC_BINARY_OP_MAP = {p.Sum:        BinaryOpType.ADD,
